@@ -80,7 +80,7 @@ Utf8Dec(b, i) ==
            canon  == CASE len = 2 -> lo2 >= 128
                        [] len = 3 -> lo2 >= 2048
                        [] len = 4 -> lo2 >= 65536
-                       [] len = 5 -> lo2 >= 2097152
+                       [] len = 5 -> hi >= 1 \/ lo2 >= 2097152
                        [] len = 6 -> hi >= 4          \* 2^26 = 4 * 2^24
                        [] len = 7 -> hi >= 128        \* 2^31 = 128 * 2^24
        IN [ok |-> contOk, len |-> len, hi |-> hi, lo |-> lo2, canon |-> canon]
